@@ -2596,6 +2596,11 @@ where
         #[cfg(delaunay_verif)]
         {
             crate::verif::tick::tick("repair.flip");
+            crate::verif::tick::iter(
+                "repair.flip",
+                stats.flips_performed,
+                max_flips.saturating_add(1),
+            );
             if crate::verif::fail::hit("repair.after_flip") {
                 return Err(FlipError::TdsMutation {
                     message: "verif: injected failure after applied flip".to_string(),
@@ -4146,6 +4151,11 @@ where
     #[cfg(delaunay_verif)]
     {
         crate::verif::tick::tick("repair.flip");
+        crate::verif::tick::iter(
+            "repair.flip",
+            stats.flips_performed,
+            max_flips.saturating_add(1),
+        );
         if crate::verif::fail::hit("repair.after_flip") {
             return Err(FlipError::TdsMutation {
                 message: "verif: injected failure after applied flip".to_string(),
@@ -4329,6 +4339,11 @@ where
     #[cfg(delaunay_verif)]
     {
         crate::verif::tick::tick("repair.flip");
+        crate::verif::tick::iter(
+            "repair.flip",
+            stats.flips_performed,
+            max_flips.saturating_add(1),
+        );
         if crate::verif::fail::hit("repair.after_flip") {
             return Err(FlipError::TdsMutation {
                 message: "verif: injected failure after applied flip".to_string(),
@@ -4507,6 +4522,11 @@ where
     #[cfg(delaunay_verif)]
     {
         crate::verif::tick::tick("repair.flip");
+        crate::verif::tick::iter(
+            "repair.flip",
+            stats.flips_performed,
+            max_flips.saturating_add(1),
+        );
         if crate::verif::fail::hit("repair.after_flip") {
             return Err(FlipError::TdsMutation {
                 message: "verif: injected failure after applied flip".to_string(),
@@ -4688,6 +4708,11 @@ where
     #[cfg(delaunay_verif)]
     {
         crate::verif::tick::tick("repair.flip");
+        crate::verif::tick::iter(
+            "repair.flip",
+            stats.flips_performed,
+            max_flips.saturating_add(1),
+        );
         if crate::verif::fail::hit("repair.after_flip") {
             return Err(FlipError::TdsMutation {
                 message: "verif: injected failure after applied flip".to_string(),
